@@ -5,5 +5,6 @@ pub mod api;
 pub mod engine;
 pub mod gen;
 pub mod props;
+pub mod r1cs_lang;
 pub mod recipe;
 pub mod refmodel;
